@@ -209,4 +209,12 @@ Example C16_ex_history :
   ([VLeaf 1; VLeaf 9], [hash N nh (VObj [VLeaf 1; VLeaf 0]); hash N nh (VObj [VLeaf 1; VLeaf 9])]) /\
   hash N nh (VObj [VLeaf 1; VLeaf 0]) <> hash N nh (VObj [VLeaf 1; VLeaf 9]).
 Proof. vm_compute. split; [reflexivity | discriminate]. Qed.
+(* a variant that is valueless_by_exception(): hashes to the bare seed, equals only another valueless one, is below
+   every variant holding a value; inside a tuple it is a component like any other *)
+Example C16_ex_valueless :
+  hash N nh VValueless = 0 /\ veqb N N.eqb VValueless VValueless = true /\ veqb N N.eqb VValueless (VVariant 0 (VLeaf 0)) = false /\
+  vltb N N.ltb VValueless (VVariant 0 (VLeaf 0)) = true /\ vltb N N.ltb (VVariant 0 (VLeaf 0)) VValueless = false /\
+  hash N nh (VTuple [VLeaf 1; VValueless]) = hash N nh (VTuple [VLeaf 1; VLeaf 0]) /\
+  cmp_shape N (VObj [VValueless; VLeaf 1]) (VObj [VVariant 1 (VLeaf 5); VLeaf 1]) = true.
+Proof. vm_compute. repeat split. Qed.
 End Examples.
